@@ -178,9 +178,9 @@ PENDING_FINDINGS = [
 CLAIM = dict(
  text='For hybrid source arrays of dim 1..3 (dim 4 with extents 1..2 where listed) with every extent, every argument, all element data and the result index symbolic, the solver shows that '
       'tile, repeat (scalar / per-element, axis / None), roll (one / two axes / None), take (axis / None), compress (axis / None), concatenate (axis / None), stack, hstack, vstack, dstack, '
-      'column_stack, split (slice arguments; pieces for 1..3 sections), sliding_window (scalar+axis / per-axis / two axes), diagonal, diagflat, tril, triu, where, eye, identity, tri, '
-      'full/zeros/ones(_like) and integer arange return NumPy\'s shape and NumPy\'s element, and that pad (constant fill, per-side widths), resize (floor(i*src/dst)) and expand '
+      'column_stack, split (slice arguments; pieces for 1..3 sections), sliding_window (scalar+axis / per-axis / two axes), diagonal (every offset incl. negative ones and offsets beyond the matrix), diagflat (k run-time and as a compile-time constant), tril, triu, where, eye, identity, tri, '
+      'full/zeros/ones(_like) (full_like also with a fill value of another type: element type of the prototype, or the explicit dtype) and integer arange (incl. empty ranges and ranges longer than 2^24) return NumPy\'s shape and NumPy\'s element, and that pad (constant fill, per-side widths), resize (floor(i*src/dst)) and expand '
       '(spacing insertion with fill) return the shape and element of their documented definitions; the index-level maps (tile, repeat, roll, pad, take, concatenate, resize) are shown in addition on '
-      'bounded shapes of symbolic dimension 1..4. The proof excludes the regions of eleven natively reproduced defects (PENDING_FINDINGS).',
+      'bounded shapes of symbolic dimension 1..4. Of the eleven natively reproduced defects found here, ten are repaired in /repo (the harnesses run on the full domain); the open one (negative axis of concatenate / stack: unsupported by design, source says TODO) is excluded and reported as KNOWN-FINDING.',
  note='Bounded: extents 1..3 (quick) / 1..4 (thorough) at the view level, 1..6 / 1..8 at the index level; reps/repeats 1..3, pad widths 0..2, shifts in [-2n,2n], spacing 0..2, resize targets 1..5; '
       'binary joins only. Real-grid arange/linspace are outside. Trusted: clang-14 -O1 lowering, engine/ll2c.py, CBMC; validated per run by gate and witness assertions.')
